@@ -349,6 +349,33 @@ def check_ops(run, r, g, tier):
                 run.violation('property', 'subst_bound does not preserve the type', dict(abs=repr(lam), arg=repr(arg), result=repr(res),
                               expected=str(T), got=str(T1)), key='C03:subst_bound-typing')
             eqs.append(('subst_bound', Comb(lam, arg), res))
+        # ---- one OBJECT with a loose bound variable at two binder depths (identity-keyed caches)
+        pb = None
+        for _ in range(6):
+            cand = g.term(BoolType, r.choice([1, 2]), (U,))
+            if cand.is_open():
+                pb = cand
+                break
+        if pb is not None:
+            inner = Comb(Const('all', TFun(TFun(U, BoolType), BoolType)), Abs('y', U, pb))
+            conj = Const('conj', TFun(BoolType, BoolType, BoolType))
+            body2 = Comb(Comb(conj, pb), inner) if r.random() < 0.5 else Comb(Comb(conj, inner), pb)
+            lam2 = Abs('x', U, body2)
+            res, err = attempt(lambda: lam2.subst_bound(arg))
+            add('case_subst_bound %s %s %s' % (g_tm(lam2), g_tm(arg), g_opt(res, g_tm)), 'subst_bound', (repr(lam2), repr(arg)), res, err)
+            if res is not None and typ_of(arg) == U and typ_of(lam2) is not None:
+                if typ_of(res) != BoolType:
+                    run.violation('property', 'subst_bound does not preserve the type (shared sub-object at two depths)',
+                                  dict(abs=repr(lam2), arg=repr(arg), result=repr(res)), key='C03:subst_bound-typing')
+                else:
+                    eqs.append(('subst_bound', Comb(lam2, arg), res))
+            red = Comb(lam2, arg)
+            res, err = attempt(lambda: red.beta_norm())
+            add('case_beta_norm %s %s' % (g_tm(red), g_opt(res, g_tm)), 'beta_norm', (repr(red),), res, err)
+            res, err = attempt(lambda: body2.incr_boundvars(2))
+            add('case_incr %s %d %s' % (g_tm(body2), 2, g_opt(res, g_tm)), 'incr_boundvars', (repr(body2), 2), res, err)
+            x2 = g.var(U, svar_p=0.0)
+            b3 = Comb(Comb(conj, Comb(Const('equals', TFun(U, U, BoolType)), x2)(Bound(0)) if False else pb), inner)
         # ---- incr_boundvars
         inc = r.choice([0, 1, 2, 3])
         for inp in (open_t, share(open_t)):
